@@ -57,7 +57,7 @@ type reqLog struct {
 func TestC03(t *testing.T) {
 	world.Quiet()
 	run := rep.New("C03", "exploration",
-		"seeded histories of status operations (forced health rounds with per-endpoint answers 200/500/connection-reset, windows in which an endpoint resets proxy connections) applied by one operator while 6 clients send requests continuously (with and without model names) through the production stack, all balancers x both engines; every backend record is judged against the operation timeline with an interval-sound rule, and the repository snapshot is compared with the expected status vector at quiescent points. distinct = distinct (engine, balancer, op sequence)")
+		"seeded histories of status operations (forced health rounds with per-endpoint answers 200/500/connection-reset/hang-until-check-timeout, windows in which an endpoint resets proxy connections) applied by one operator while 6 clients send requests continuously (with and without model names) through the production stack, all balancers x both engines; every backend record is judged against the operation timeline with an interval-sound rule, and the repository snapshot is compared with the expected status vector at quiescent points. distinct = distinct (engine, balancer, op sequence)")
 	run.Assume("worlds live < 25 s so the real 30 s health ticker never runs; every status-changing health round is initiated and stamped by the harness")
 	seed := rep.Seed()
 	histories := rep.Pick(36, 600)
@@ -170,7 +170,7 @@ func oneHistory(run *rep.Run, rng *rand.Rand, h int, eng, bal string) {
 	}
 	var trace []opRec
 	ctx := context.Background()
-	healthMode := make([]string, n) // "200" | "500" | "reset"
+	healthMode := make([]string, n) // "200" | "500" | "reset" | "hang"
 	for i := range healthMode {
 		healthMode[i] = "200"
 	}
@@ -186,7 +186,7 @@ func oneHistory(run *rep.Run, rng *rand.Rand, h int, eng, bal string) {
 		switch x := rng.Intn(10); {
 		case x < 4: // change a health answer, then run a round
 			i := rng.Intn(n)
-			healthMode[i] = []string{"200", "200", "500", "reset"}[rng.Intn(4)]
+			healthMode[i] = []string{"200", "200", "200", "500", "reset", "hang"}[rng.Intn(6)]
 			switch healthMode[i] {
 			case "200":
 				eps[i].b.SetHealth(200, "")
@@ -194,6 +194,8 @@ func oneHistory(run *rep.Run, rng *rand.Rand, h int, eng, bal string) {
 				eps[i].b.SetHealth(500, "")
 			case "reset":
 				eps[i].b.SetHealth(0, "reset_before_headers")
+			case "hang": // accepts the probe and never answers: the check runs into check_timeout
+				eps[i].b.SetHealth(0, "stall_before_headers")
 			}
 			trace = append(trace, opRec{"set-health", fmt.Sprintf("e%d=%s", i, healthMode[i])})
 			fallthrough
